@@ -125,6 +125,12 @@ def gen(chk, tier):
         nx += 1
         if nx >= (6 if q else 200):
             break
+    y00 = ec.lift_x(0)                      # b is a square: (0, +-sqrt b) are points, and x = p is their non-canonical twin
+    if y00 is not None:
+        for yy in (y00, P - y00):
+            g.one("decode_x_zero_valid", "pt.setbytes", b=[4] + b32(0) + b32(yy), recv=recv)
+            g.one("decode_noncanonical_x_equals_p", "pt.setbytes", b=[4] + b32(P) + b32(yy), recv=recv)
+            g.one("decode_noncanonical_x_p_plus_1", "pt.setbytes", b=[4] + b32(P + 1) + b32(yy), recv=recv)
     g.one("decode_noncanonical_p_p", "pt.setbytes", b=[4] + b32(P) + b32(P), recv=recv)
     for bit in (rng.sample(range(8, 520), 6 if q else 200)):
         e2 = list(enc)
